@@ -31,7 +31,9 @@ import textwrap
 from bumble import controller as _controller
 from bumble import hci
 from bumble import host as _host
+from bumble import lmp
 from pyvc import ext_c03  # noqa: F401  (skeleton-profile extensions, see the module docstring)
+from pyvc.ext_c03 import call_code
 from pyvc.contracts import (Any, Bool, Callback, ConcList, Const, Inst, Int, IntRange, OneOf, Opaque, Opt, Str, contract, iff,
                             implies, lemma, model)
 
@@ -609,6 +611,206 @@ for _h in PROCEDURES:
     proc_contract(_h, COMMAND_INST[HANDLER_CLASS[_h]])
 
 
+# ---------------------------------------------------------------------------
+# the classic connection procedure, acceptor side: HCI_Accept_Connection_Request
+# ---------------------------------------------------------------------------
+# The initiator's Create Connection is "accepted as pending" on the other controller: it sent LMP_host_connection_req
+# and waits for the answer in Controller.classic_pending_commands[peer][LMP_HOST_CONNECTION_REQ] (send_lmp_packet files
+# the future under the opcode of the request, on_lmp_packet resolves the future filed under the opcode the answer NAMES
+# -- response_opcode -- and only logs an answer that names anything else).  So the initiator's procedure is concluded
+# only if the acceptor, on every path on which its host accepted the request, answers with exactly one
+# LMP_accepted / LMP_not_accepted naming LMP_HOST_CONNECTION_REQ (Vol 2 Part C 4.1.2 / 4.3: the PDU carries the
+# opcode of the PDU it answers) -- also when the role switch it tried first was refused.  The acceptor's own procedure
+# (its host's Accept Connection Request, answered with Command Status 0x00) is concluded by exactly one
+# on_classic_connection_complete whose status agrees with the answer it gave the peer.
+# The done-callback registered on the future of the LMP_switch_req is run by the recorded add_done_callback with a
+# future whose result is arbitrary (ghost.switch_status): the peer's answer to the role switch, whenever it arrives.
+def lmp_send_recorded(ghost, address, packet):
+    ghost.cont = ghost.cont + 1
+    if isinstance(packet, lmp.LmpAccepted):
+        ghost.answers = ghost.answers + 1
+        ghost.answer_names = packet.response_opcode
+        ghost.answer_positive = True
+        ghost.answer_address = address
+    elif isinstance(packet, lmp.LmpNotAccepted):
+        ghost.answers = ghost.answers + 1
+        ghost.answer_names = packet.response_opcode
+        ghost.answer_positive = False
+        ghost.answer_error = packet.error_code
+        ghost.answer_address = address
+    elif isinstance(packet, lmp.LmpSwitchReq):
+        ghost.switch_reqs = ghost.switch_reqs + 1
+    elif isinstance(packet, lmp.LmpHostConnectionReq):
+        ghost.requests = ghost.requests + 1
+        ghost.request_opcode = packet.opcode
+        ghost.request_address = address
+    else:
+        ghost.other_lmp = ghost.other_lmp + 1
+    return ghost.lmp_future
+
+
+def run_done_callback(ghost, callback):
+    ghost.callbacks = ghost.callbacks + 1
+    call_code(callback, ghost.lmp_future)
+
+
+def connection_complete_recorded(ghost, address, status):
+    ghost.completions = ghost.completions + 1
+    ghost.completion_status = status
+    ghost.completion_address = address
+
+
+def role_change_recorded(ghost, connection):
+    ghost.role_changes = ghost.role_changes + 1
+
+
+model('ghost:LmpFuture#answered', fields={}, methods={'add_done_callback': Callback('add_done_callback', effect=run_done_callback),
+                                                      'result': Callback('result', effect=lambda ghost: ghost.switch_status)})
+model('ghost:ClassicTable', fields={}, methods={'get': Callback('get', effect=lambda ghost, address: ghost.classic)})
+ACCEPT_FIELDS = dict(CTRL_FIELDS)
+ACCEPT_FIELDS['classic_connections'] = Inst('ghost:ClassicTable')  # what the table holds for the address of the command: ghost.classic
+C03_ACCEPT_METHODS = dict(
+    send_hci_packet=Callback('send_hci_packet', effect=proc_send),
+    send_lmp_packet=Callback('send_lmp_packet', effect=lmp_send_recorded),
+    on_classic_connection_complete=Callback('on_classic_connection_complete', effect=connection_complete_recorded),
+    classic_role_change=Callback('classic_role_change', effect=role_change_recorded),
+)
+model('bumble.controller:Controller#accept', fields=ACCEPT_FIELDS, methods=C03_ACCEPT_METHODS)
+ACCEPT_MODIFIES = ['ghost.replies', 'ghost.last_status', 'ghost.cont', 'ghost.answers', 'ghost.answer_names', 'ghost.answer_positive', 'ghost.answer_error',
+                   'ghost.answer_address', 'ghost.switch_reqs', 'ghost.other_lmp', 'ghost.callbacks', 'ghost.completions', 'ghost.completion_status',
+                   'ghost.completion_address', 'ghost.role_changes']
+HOST_CONNECTION_REQ = int(lmp.Opcode.LMP_HOST_CONNECTION_REQ)
+ACCEPT_GHOST = dict(replies=Int, last_status=Int, cont=Int, answers=Int, answer_names=Int, answer_positive=Bool, answer_error=Int, answer_address=Opaque('address'),
+                    switch_reqs=Int, other_lmp=Int, callbacks=Int, completions=Int, completion_status=Int, completion_address=Opaque('address'), role_changes=Int,
+                    switch_status=IntRange(0, 255), lmp_future=Inst('ghost:LmpFuture#answered'), classic=Opt(Inst('ghost:Connection')),
+                    requests=Int, request_opcode=Int, request_address=Opaque('address'))
+
+
+def acceptor_post(self, command, ghost, old):
+    accepted = ghost.replies == old.ghost.replies + 1 and ghost.last_status == hci.HCI_ErrorCode.SUCCESS
+    as_central = command.role == hci.Role.CENTRAL
+    return [
+        ghost.replies == old.ghost.replies + 1,
+        # a connection request from that peer is waiting for the host's decision <=> the command is accepted
+        accepted == (ghost.classic is not None),
+        # the answer to the peer's LMP_host_connection_req: exactly one, naming that request, on every accepting path
+        implies(accepted, ghost.answers == old.ghost.answers + 1),
+        implies(accepted, ghost.answer_names == HOST_CONNECTION_REQ),
+        implies(accepted, ghost.answer_address is command.bd_addr and ghost.completion_address is command.bd_addr),
+        # the acceptor's own procedure is concluded once, with the status it told the peer
+        implies(accepted, ghost.completions == old.ghost.completions + 1),
+        implies(accepted, ghost.completion_status == (hci.HCI_ErrorCode.SUCCESS if ghost.answer_positive else ghost.answer_error)),
+        # accept as peripheral: plain LMP_accepted; accept as central: role switch first, the peer's answer to it decides
+        implies(accepted and not as_central, ghost.answer_positive and ghost.switch_reqs == old.ghost.switch_reqs and ghost.role_changes == old.ghost.role_changes),
+        implies(accepted and as_central, ghost.switch_reqs == old.ghost.switch_reqs + 1 and ghost.callbacks == old.ghost.callbacks + 1
+                and ghost.answer_positive == (ghost.switch_status == hci.HCI_ErrorCode.SUCCESS)
+                and ghost.role_changes == old.ghost.role_changes + (1 if ghost.answer_positive else 0)),
+        implies(accepted and as_central and not ghost.answer_positive, ghost.answer_error == ghost.switch_status),
+        implies(accepted, ghost.other_lmp == old.ghost.other_lmp and ghost.requests == old.ghost.requests),
+        # request unknown (no such connection): error status, nothing goes to the peer, nothing is concluded
+        implies(not accepted, ghost.cont == old.ghost.cont and ghost.completions == old.ghost.completions and ghost.answers == old.ghost.answers),
+    ]
+
+
+contract(
+    'bumble.controller:Controller.on_hci_accept_connection_request_command',
+    key='bumble.controller:Controller.on_hci_accept_connection_request_command@procedure',
+    prop='C03',
+    profile='skeleton',
+    params=dict(self=Inst('bumble.controller:Controller#accept'),
+                command=Inst(COMMAND_INST[hci.HCI_Accept_Connection_Request_Command].name, bd_addr=Opaque('address'))),
+    ghost=ACCEPT_GHOST,
+    requires=link_attached,
+    ensures=acceptor_post,
+    ensures_names=['exactly-one-status', 'accepted-iff-a-request-is-waiting', 'accepted-exactly-one-answer-to-the-peer', 'answer-names-the-host-connection-request', 'answer-and-completion-for-the-requesting-peer',
+                   'accepted-own-connection-complete-once', 'completion-status-is-the-answer-given', 'as-peripheral-plain-accept',
+                   'as-central-role-switch-answer-decides', 'refused-switch-error-code-passed-on', 'no-other-lmp-pdu', 'unknown-request-nothing-sent'],
+    modifies=ACCEPT_MODIFIES,
+    inline=['Controller._send_hci_command_status'],
+    note='classic connection procedure, acceptor side: the answer names the request it answers on every path (accepted, role switch refused)',
+    solver_procs=1,
+)
+
+
+# -- initiator side: HCI_Create_Connection accepted as pending => exactly one LMP_host_connection_req went to the peer,
+# and when the future send_lmp_packet returned for it is resolved (the recorded add_done_callback runs the callback with
+# an arbitrary result, ghost.switch_status) the procedure is concluded by exactly one on_classic_connection_complete for
+# that peer with that status
+CREATE_FIELDS = dict(ACCEPT_FIELDS)
+CREATE_FIELDS['classic_connections'] = Any  # only written (skeleton profile: a store into an uninterpreted table)
+model('bumble.controller:Controller#create', fields=CREATE_FIELDS, methods=C03_ACCEPT_METHODS)
+
+
+def initiator_post(self, command, ghost, old):
+    pending = ghost.replies == old.ghost.replies + 1 and ghost.last_status == hci.HCI_COMMAND_STATUS_PENDING
+    return [
+        ghost.replies == old.ghost.replies + 1,
+        implies(pending, ghost.requests == old.ghost.requests + 1 and ghost.request_opcode == HOST_CONNECTION_REQ and ghost.request_address is command.bd_addr),
+        implies(pending, ghost.cont == old.ghost.cont + 1),
+        implies(pending, ghost.callbacks == old.ghost.callbacks + 1 and ghost.completions == old.ghost.completions + 1
+                and ghost.completion_status == ghost.switch_status and ghost.completion_address is command.bd_addr),
+        implies(not pending, ghost.cont == old.ghost.cont and ghost.completions == old.ghost.completions),
+    ]
+
+
+contract(
+    'bumble.controller:Controller.on_hci_create_connection_command',
+    key='bumble.controller:Controller.on_hci_create_connection_command@procedure-answer',
+    prop='C03',
+    profile='skeleton',
+    params=dict(self=Inst('bumble.controller:Controller#create'),
+                command=Inst(COMMAND_INST[hci.HCI_Create_Connection_Command].name, bd_addr=Opaque('address'))),
+    ghost=ACCEPT_GHOST,
+    requires=link_attached,
+    ensures=initiator_post,
+    ensures_names=['exactly-one-status', 'pending-one-host-connection-request-to-the-peer', 'pending-no-other-lmp-pdu',
+                   'answer-to-the-request-concludes-with-its-status', 'refused-nothing-sent'],
+    modifies=ACCEPT_MODIFIES + ['ghost.requests', 'ghost.request_opcode', 'ghost.request_address'],
+    inline=['Controller._send_hci_command_status'],
+    note='classic connection procedure, initiator side: the completion is the done-callback of the future of the LMP_host_connection_req',
+    solver_procs=1,
+)
+
+
+# -- why the opcode matters: the initiator's side of the exchange, real code, value profile --------------------
+# The real send_lmp_packet (files the future of the request) and the real on_lmp_packet (delivers the peer's answer)
+# in sequence: the future of the LMP_host_connection_req -- whose done-callback is the initiator's Connection Complete --
+# is resolved, exactly once and with the status the answer carries, iff the answer names LMP_HOST_CONNECTION_REQ.
+def lmp_future_resolved(ghost, value):
+    ghost.resolved = ghost.resolved + 1
+    ghost.resolved_with = value
+
+
+model('ghost:Future#lmp', fields={}, methods={'set_result': Callback('set_result', effect=lmp_future_resolved)})
+model('ghost:Loop#lmp', fields={}, methods={'create_future': Callback('create_future', effect=lambda ghost: ghost.fut)})
+model('ghost:Link#lmp', fields={}, methods={'send_lmp_packet': Callback('send_lmp_packet')})
+model('bumble.controller:Controller#lmp', fields=dict(link=Inst('ghost:Link#lmp'), classic_pending_commands=Const({})))
+
+
+def lemma_answer_concludes_the_initiator(c, peer, names, error, positive, ghost):
+    request = lmp.LmpHostConnectionReq()
+    fut = c.send_lmp_packet(peer, request)
+    assert fut is ghost.fut and ghost.resolved == 0, 'request-future-pending'
+    if positive:
+        c.on_lmp_packet(peer, lmp.LmpAccepted(names))
+    else:
+        c.on_lmp_packet(peer, lmp.LmpNotAccepted(names, error))
+    assert ghost.resolved == (1 if names == HOST_CONNECTION_REQ else 0), 'resolved-iff-the-answer-names-the-request'
+    assert implies(ghost.resolved == 1, ghost.resolved_with == (hci.HCI_ErrorCode.SUCCESS if positive else error)), 'resolved-with-the-answers-status'
+
+
+lemma(
+    'answer_concludes_the_initiator',
+    lemma_answer_concludes_the_initiator,
+    prop='C03',
+    params=dict(c=Inst('bumble.controller:Controller#lmp'), peer=Opaque('address'), names=IntRange(0, 127), error=IntRange(0, 255), positive=Bool),
+    ghost=dict(resolved=Int, resolved_with=Int, fut=Inst('ghost:Future#lmp'), loop=Inst('ghost:Loop#lmp')),
+    requires=lambda ghost: [ghost.resolved == 0],
+    inline=['Controller.send_lmp_packet', 'Controller.on_lmp_packet'],
+    stubs={asyncio.get_running_loop: Callback('get_running_loop', effect=lambda ghost: ghost.loop)},
+)
+
+
 # ===========================================================================
 # Host side (bumble/host.py), profile 'value'
 # ===========================================================================
@@ -664,9 +866,16 @@ model('ghost:Semaphore', fields={}, methods={
     'release': Callback('release', effect=sem_release),
     'locked': Callback('locked', effect=sem_locked),
 })
+def fut_done(ghost):
+    """Future.done() of the pending response (asked by on_transport_lost since notes/C16/fix-1.diff): ghost.fut_done says
+    whether the response already arrived (set_result ran) while the waiter in _send_command has not resumed yet"""
+    return ghost.fut_done
+
+
 model('ghost:Future', fields={}, methods={
     'set_result': Callback('set_result', effect=fut_set_result),
     'set_exception': Callback('set_exception', effect=fut_set_exception),
+    'done': Callback('done', effect=fut_done),
 })
 model('bumble.hci:HCI_Command#host', fields=dict(op_code=IntRange(1, 0xFFFF), name=Str))
 model('bumble.hci:HCI_Command_Complete_Event#host', fields=dict(num_hci_command_packets=IntRange(0, 255), command_opcode=IntRange(0, 0xFFFF)))
@@ -682,6 +891,9 @@ model(
     methods={
         'send_hci_packet': Callback('send_hci_packet', effect=host_send, raises=(RuntimeError,)),
         'emit': Callback('emit', effect=host_emit),
+        # Host._forget_links (notes/C16/fix-2.diff): drops the link tables and data queues, touches no command state
+        # (what it does is C16: contracts/c16_teardown.py)
+        '_forget_links': Callback('_forget_links'),
     },
 )
 HOST = Inst('bumble.host:Host')
@@ -825,7 +1037,7 @@ contract(
 
 
 # -- event handlers -----------------------------------------------------------
-EVENT_GHOST = dict(SEM_GHOST, results=Int, result_opcode=Int, failures=Int, flushes=Int)
+EVENT_GHOST = dict(SEM_GHOST, results=Int, result_opcode=Int, failures=Int, flushes=Int, fut_done=Bool)
 EVENT_MOD = ['ghost.sem', 'ghost.results', 'ghost.result_opcode']
 
 
@@ -890,7 +1102,9 @@ contract(
     prop='C03',
     params=dict(self=HOST),
     ghost=EVENT_GHOST,
-    requires=host_inv,
+    # the pending response is still pending (C03's view: one outstanding command, not yet answered); the states in which it
+    # is already finished are C16 (contracts/c16_teardown.py, notes/C16 defect 1)
+    requires=lambda self, ghost: host_inv(self, ghost) + [not ghost.fut_done],
     ensures=lambda self, ghost, old: host_inv(self, ghost) + [
         # the waiting caller (if any) is woken with an exception: it then clears the pending state and releases
         ghost.failures == old.ghost.failures + (1 if self.pending_response is not None else 0),
